@@ -61,7 +61,7 @@ func verifCheckOCRA(cfg SuiteConfig, in OCRAInput, key []byte, code string) {
 		return
 	}
 	verifAssert(verifHMACAlg(0) == int(cfg.Hash), "hash-of-suite")
-	verifAssert(verifBytesEq(verifHMACKey(0), key), "key-is-decoded-secret")
+	verifAssert(verifKeyEquiv(verifHMACKey(0), key, int(cfg.Hash)), "key-is-decoded-secret")
 	M := verifHMACMsg(0)
 	R := verifSpecMessage(cfg, in, plen)
 	verifAssert(len(M) == len(R), "message-length")
@@ -185,5 +185,44 @@ func verifH_C05_registered() {
 		return
 	}
 	verifAssert(cfg.Raw == names[k], "suite-string-is-the-registered-name")
+	verifCheckOCRA(cfg, in, key, code)
+}
+
+var verifParsedSuites = []string{
+	"OCRA-1:HOTP-SHA1-6:QN08-S064",
+	"OCRA-1:HOTP-SHA256-8:C-QN10-PSHA256-S512-T5M",
+	"OCRA-1:HOTP-SHA512-10:QN10-S000-T30S",
+	"OCRA-1:HOTP-SHA1-4:C-QN08-T2H",
+	"OCRA-1:HOTP-SHA256-7:QN08-PSHA512-S128",
+}
+
+// suite strings that go through the parser (not registered): whatever the string says, the
+// message layout is the documented one (session information padded to 128 bytes, ...)
+//
+//verif:harness prop=C05 name=parsed
+//verif:cases quick k=0..4
+//verif:replace github.com/ja7ad/otp.DecodeSecret=verifStub_DecodeSecret
+//verif:opt hmac=fresh unwind=2000 maxpaths=2000
+func verifH_C05_parsed() {
+	name := verifParsedSuites[verifCase("k")]
+	if IsKnownSuite(name) {
+		verifSkipCase()
+	}
+	s, err := NewRawSuite(name)
+	verifObserve("parsed", err == nil)
+	if err != nil {
+		return // the parser may reject (C15); nothing to compute then
+	}
+	cfg := s.Config()
+	verifAssert(cfg.Raw == name, "suite-string-is-the-parsed-text")
+	in := verifSymInput(0)
+	key := verifBytes("key", 10)
+	secret := verifSecretFor(key, false)
+	code, err := GenerateOCRA(secret, s, in)
+	verifObserve("err", err == nil)
+	verifObserve("code", code)
+	if err != nil {
+		return
+	}
 	verifCheckOCRA(cfg, in, key, code)
 }
